@@ -6,22 +6,25 @@ import GoluaVerif.Model.PatMatch
 namespace GoluaVerif.Model.PatMatch
 open GoluaVerif.Model
 
+/-- everything the machine is charged for: bytes consumed, steps, bytes compared by back-references -/
+def total (m : M) : Nat := m.consumed + m.steps + m.compared
+
 /-- the budget invariant for an initial budget `B` (`0` = unlimited) -/
 def Bal (B : Nat) (m : M) : Prop :=
-  (B = 0 → m.budget = 0) ∧ (0 < B → 0 < m.budget ∧ m.budget + m.consumed = B)
+  (B = 0 → m.budget = 0) ∧ (0 < B → 0 < m.budget ∧ m.budget + total m = B)
 
-theorem Bal.same {B : Nat} {m m' : M} (h : Bal B m) (hb : m'.budget = m.budget) (hc : m'.consumed = m.consumed) :
+theorem Bal.same {B : Nat} {m m' : M} (h : Bal B m) (hb : m'.budget = m.budget) (hc : total m' = total m) :
     Bal B m' := by
   unfold Bal at *; rw [hb, hc]; exact h
 
-theorem consume_bal {B : Nat} {m m' : M} (h : Bal B m)
-    (hr : consumeBudget { m with si := m.si + 1, consumed := m.consumed + 1 } = .ok m') : Bal B m' := by
+/-- one unit charged together with one more unit of work -/
+theorem consume_gen {B : Nat} {m0 m m' : M} (h : Bal B m0) (hb : m.budget = m0.budget) (ht : total m = total m0 + 1)
+    (hr : consumeBudget m = .ok m') : Bal B m' := by
   unfold consumeBudget at hr
-  simp only at hr
   by_cases h0 : m.budget = 0
   · simp only [h0, if_true] at hr
     injection hr with hr; subst hr
-    refine ⟨fun _ => rfl, fun hB => ?_⟩
+    refine ⟨fun _ => h0, fun hB => ?_⟩
     have := (h.2 hB).1; omega
   · simp only [h0, if_false] at hr
     by_cases h1 : m.budget - 1 = 0
@@ -30,7 +33,13 @@ theorem consume_bal {B : Nat} {m m' : M} (h : Bal B m)
       injection hr with hr; subst hr
       refine ⟨fun hB => ?_, fun hB => ?_⟩
       · have := h.1 hB; omega
-      · have := h.2 hB; simp only; omega
+      · have := h.2 hB
+        have e : total { m with budget := m.budget - 1 } = total m := rfl
+        simp only [e]; omega
+
+theorem consume_bal {B : Nat} {m m' : M} (h : Bal B m)
+    (hr : consumeBudget { m with si := m.si + 1, consumed := m.consumed + 1 } = .ok m') : Bal B m' :=
+  consume_gen (m := { m with si := m.si + 1, consumed := m.consumed + 1 }) h rfl (by unfold total; simp only; omega) hr
 
 theorem matchNext_bal {B : Nat} {s : Subject} {set : ByteSet} {m m' : M} {b : Bool} (h : Bal B m)
     (hr : matchNext s set m = .ok (b, m')) : Bal B m' := by
@@ -200,19 +209,42 @@ theorem matchStep_bal {B n : Nat} {s : Subject} {item : PItem} {m m' : M} (h : B
       rw [hc] at hr
       simp only [bind, Except.bind] at hr
       split at hr
-      · cases h1 : sliceChecked s c.start c.stop with
-        | error e => rw [h1] at hr; simp at hr
-        | ok a =>
-          rw [h1] at hr
+      · cases hcb : consumeBudgetN m (c.stop - c.start).toNat with
+        | error e => rw [hcb] at hr; simp at hr
+        | ok m1 =>
+          rw [hcb] at hr
           simp only at hr
-          cases h2 : sliceChecked s m.si (m.si + c.stop - c.start) with
-          | error e => rw [h2] at hr; simp at hr
-          | ok b =>
-            rw [h2] at hr
-            simp only [pure, Except.pure] at hr
-            split at hr <;> (injection hr with hr; subst hr)
-            · exact h.same rfl rfl
-            · exact trackback_bal h
+          -- the state after charging `n` units and recording `n` compared bytes
+          have hbal : ∀ mf : M, mf.budget = m1.budget → total mf = total m1 + (c.stop - c.start).toNat → Bal B mf := by
+            intro mf hb ht
+            unfold consumeBudgetN at hcb
+            by_cases h0 : m.budget = 0
+            · simp only [h0, if_true] at hcb
+              injection hcb with hcb; subst hcb
+              refine ⟨fun _ => by rw [hb]; exact h0, fun hB => ?_⟩
+              have := (h.2 hB).1; omega
+            · simp only [h0, if_false] at hcb
+              split at hcb
+              · cases hcb
+              · injection hcb with hcb; subst hcb
+                refine ⟨fun hB => ?_, fun hB => ?_⟩
+                · have := h.1 hB; omega
+                · have := h.2 hB
+                  have e : total { m with budget := m.budget - (c.stop - c.start).toNat } = total m := rfl
+                  rw [hb, ht, e]; simp only; omega
+          cases h1 : sliceChecked s c.start c.stop with
+          | error e => rw [h1] at hr; simp at hr
+          | ok a =>
+            rw [h1] at hr
+            simp only at hr
+            cases h2 : sliceChecked s m1.si (m.si + c.stop - c.start) with
+            | error e => rw [h2] at hr; simp at hr
+            | ok b =>
+              rw [h2] at hr
+              simp only [pure, Except.pure] at hr
+              split at hr <;> (injection hr with hr; subst hr)
+              · exact hbal _ rfl (by simp [total]; omega)
+              · exact trackback_bal (hbal _ rfl (by simp [total]; omega))
       · simp only [pure, Except.pure] at hr
         injection hr with hr; subst hr; exact trackback_bal h
   · -- balanced
@@ -259,32 +291,36 @@ theorem matchStep_bal {B n : Nat} {s : Subject} {item : PItem} {m m' : M} (h : B
 theorem step_bal' {B : Nat} {P : Pattern} {s : Subject} {m m' : M} {st : Status} (h : Bal B m)
     (hr : step P s m = .ok (st, m')) : Bal B m' := by
   unfold step at hr
-  simp only at hr
-  have h0 : Bal B { m with steps := m.steps + 1 } := h.same rfl rfl
-  split at hr
-  · rename_i hlt
-    cases hm : matchStep P.items.size s P.items[m.pi] { m with steps := m.steps + 1 } with
-    | error e => rw [hm] at hr; simp [bind, Except.bind] at hr
-    | ok m1 =>
-      rw [hm] at hr
-      simp only [bind, Except.bind, pure, Except.pure] at hr
-      injection hr with hr; injection hr with _ hr; subst hr
-      exact matchStep_bal h0 hm
-  · split at hr
-    · simp only [pure, Except.pure] at hr
-      injection hr with hr; injection hr with _ hr; subst hr; exact h0
+  cases hc : consumeBudget { m with steps := m.steps + 1 } with
+  | error e => simp [hc, bind, Except.bind] at hr
+  | ok m0 =>
+    simp only [hc, bind, Except.bind] at hr
+    have h0 : Bal B m0 :=
+      consume_gen (m := { m with steps := m.steps + 1 }) h rfl (by unfold total; simp only; omega) hc
+    split at hr
+    · rename_i hlt
+      cases hm : matchStep P.items.size s P.items[m0.pi] m0 with
+      | error e => rw [hm] at hr; simp at hr
+      | ok m1 =>
+        rw [hm] at hr
+        simp only [pure, Except.pure] at hr
+        injection hr with hr; injection hr with _ hr; subst hr
+        exact matchStep_bal h0 hm
     · split at hr
-      · cases hc : capAt m.caps 0 with
-        | error e => simp [hc, bind, Except.bind] at hr
-        | ok c =>
-          simp only [hc, bind, Except.bind] at hr
-          cases hc2 : capSet m.caps 0 { c with stop := m.si } with
-          | error e => simp [hc2] at hr
-          | ok caps =>
-            simp only [hc2, pure, Except.pure] at hr
-            injection hr with hr; injection hr with _ hr; subst hr; exact h0.same rfl rfl
       · simp only [pure, Except.pure] at hr
-        injection hr with hr; injection hr with _ hr; subst hr; exact trackback_bal h0
+        injection hr with hr; injection hr with _ hr; subst hr; exact h0
+      · split at hr
+        · cases hc1 : capAt m0.caps 0 with
+          | error e => simp [hc1] at hr
+          | ok c =>
+            simp only [hc1] at hr
+            cases hc2 : capSet m0.caps 0 { c with stop := m0.si } with
+            | error e => simp [hc2] at hr
+            | ok caps =>
+              simp only [hc2, pure, Except.pure] at hr
+              injection hr with hr; injection hr with _ hr; subst hr; exact h0.same rfl rfl
+        · simp only [pure, Except.pure] at hr
+          injection hr with hr; injection hr with _ hr; subst hr; exact trackback_bal h0
 
 theorem run_bal {B : Nat} {P : Pattern} {s : Subject} : ∀ (fuel : Nat) {m m' : M} {b : Bool}, Bal B m →
     run P s fuel m = .ok (b, m') → Bal B m' := by
@@ -358,15 +394,16 @@ theorem findLoop_bal {B : Nat} {P : Pattern} {s : Subject} {fuel : Nat} : ∀ (c
       injection hr with hr; injection hr with _ hr; subst hr; exact h
 
 theorem initM_bal (init : Int) (B : Nat) : Bal B (initM init B) := by
-  unfold Bal initM; simp
+  unfold Bal initM total; simp
 
-/-- BUDGET: whenever `MatchFromStart` returns normally under a budget `B > 0`, the amount it reports as used is
-    exactly the number of bytes the machine consumed, and it is below `B`; the only other outcomes are the
-    `budgetConsumed` panic (reported as `B + 1`) and a recovered index panic (reported as 0) -/
+/-- BUDGET = WORK: whenever `MatchFromStart` returns normally under a budget `B > 0`, the amount it reports as used is
+    exactly the number of machine steps plus the bytes consumed plus the bytes compared by back-references, and it
+    is below `B`; the only other outcomes are the `budgetConsumed` panic (reported as `B + 1`), an index panic
+    (re-raised) and the model's fuel artefact -/
 theorem matchFromStart_charged (P : Pattern) (s : Subject) (fuel : Nat) (init : Int) (B : Nat) (hB : 0 < B) :
     let r := matchFromStart P s fuel init B
-    (r.used = r.consumed ∧ r.used < B) ∨ (r.used = B + 1 ∧ r.captures = none) ∨ r.swallowedPanic.isSome ∨
-      r.outOfFuel = true := by
+    (r.used = r.steps + r.consumed + r.compared ∧ r.used < B) ∨ (r.used = B + 1 ∧ r.captures = none) ∨
+      r.escapedPanic.isSome ∨ r.outOfFuel = true := by
   simp only
   unfold matchFromStart
   cases hr : findFromStart P s fuel (initM init B) with
@@ -384,6 +421,7 @@ theorem matchFromStart_charged (P : Pattern) (s : Subject) (fuel : Nat) (init : 
       · exact matchToEnd_bal (initM_bal init B) hr
       · unfold find at hr; exact findLoop_bal _ (initM_bal init B) hr
     have := hbal.2 hB
+    unfold total at this
     simp only [recoverWrap]
     omega
 
